@@ -812,12 +812,11 @@ func (c *ctx) nestFamily(wg *sync.WaitGroup) []nestKind {
 			continue
 		}
 		ls := loadersFor(k.Lang)
+		// plain and (thorough) minify only: the lowering flag sets are exercised at depths <= 1000 in the batches;
+		// at depth 2500 lowering CSS nesting costs seconds to tens of seconds (see known_findings.jsonl)
 		keys := []evalKey{{Loader: ls[0], FS: fsPlain, Mode: "transform"}}
 		if r.Thorough() {
-			keys = append(keys, evalKey{Loader: ls[len(ls)-1], FS: []int{fsMinify, fsLower, fsEsmAll, fsDialect}[(nc.K+nc.D)%4], Mode: "transform"})
-		}
-		if r.Thorough() && nc.M == "balanced" {
-			keys = append(keys, evalKey{Loader: ls[0], FS: fsMinify, Mode: "transform"}, evalKey{Loader: ls[len(ls)-1], FS: fsLower, Mode: "transform"})
+			keys = append(keys, evalKey{Loader: ls[len(ls)-1], FS: fsMinify, Mode: "transform"})
 		}
 		for _, key := range keys {
 			deep++
@@ -872,6 +871,18 @@ func Run(r *core.Run) {
 	if b := os.Getenv("C16_BUDGET_SEC"); b != "" {
 		fmt.Sscan(b, &c.budgetSec)
 	}
+	// the bulk of this check is exploration (enumerated and scripted inputs, no coverage feedback); only the
+	// fault model of part (i) is model checking proper.  The weaker level is claimed for the whole.
+	r.Level = "exploration"
+	if r.Replay != "" {
+		replay(c)
+		return
+	}
+	r.Set("rule", "inputs: (a) every string of <= 3 (thorough 4) tokens of ten alphabets (spec/TokensAlphabet.tla) in the frames/separators of the plan, enumerated by TLC (Tokens.tla; the last `tail` levels of the product are expanded by the harness and cross-checked); (b) TLC-simulated mutation scripts (TokensMut.tla, depth <= 6) applied to the inputs of the repository's own parser/printer/lexer/bundler tests; (c) nesting kinds x depths x closing modes (TokensNest.tla); (d) fault placements of ScanFaults.tla replayed into real builds. One evaluation = one (input, loader, flag set) through api.Transform / api.Build in a child process. A case is non-trivial iff esbuild REJECTS the input (>= 1 error diagnostic) for at least one loader under the plain flag sets, i.e. error reporting/recovery ran (the sandbox has no reference parser for TS/JSX/CSS; the rule of DESIGN.md A.6 is applied with esbuild's own verdict); distinct = distinct (plan entry, frame, separator, token tuple) / (script, seed) / (kind, depth, mode) / fault placement")
+	r.Assume("time bound: 'terminates within seconds for inputs of tens of kilobytes' is read generously as: one (input <= 40000 bytes, loader, flag set) uses <= 30 s of CPU time in a single-threaded process of its own (GOMAXPROCS=1, CPU time read by the parent from /proc: on an idle machine such a process needs about as much CPU time as wall-clock time, and under load CPU time is inflated far less than wall-clock time); a deadlock is 'no CPU progress for 90 s'")
+	r.Assume("inputs inside a batch child are only screened (diagnostic texts, a 20 s wall-clock monitor, the journal of inputs in progress); every verdict about time or a crash comes from re-running the single (input, loader, flag set) alone in a fresh process")
+	r.Assume("no coverage feedback: enumeration and scripted mutation only (DESIGN.md section 6)")
+	r.Assume("the dispatch budget (80 s quick, 17 min thorough after the first dispatch) is stretched by the measured slowness of the batch children relative to 2500 evaluations/s per child (at most x12 quick, x2 thorough); batches not dispatched within it are counted, not evaluated")
 	c.pool(r.Pick(6, 8))
 	var wg sync.WaitGroup
 	wg.Add(1)
